@@ -416,6 +416,7 @@ func (fr *Frame) doCall(ins ssa.Instruction, cc *ssa.CallCommon, st *State, pos 
 		fr.nilCheck(fr.val(cc.Value).S, "method call on nil interface "+cc.Value.Name()+"."+cc.Method.Name(), pos)
 	}
 	if native, ok := nativeCalls[key]; ok {
+		fr.atCallAsserts(key, cc, st, pos)
 		return native.exec(fr, cc, st, pos)
 	}
 	spec := vc.callerView(vc.lookupSpec(key))
@@ -748,6 +749,7 @@ func (fr *Frame) atCallAsserts(key string, cc *ssa.CallCommon, st *State, pos to
 		if at.Ord >= 0 && at.Ord != fr.siteOrdinal(at.Callee, cc) {
 			continue
 		}
+		vc.atMatched[at] = true
 		ctx := fr.specCtx(st, fr.entry, fr.curBlock, fr.curIdx)
 		for i, a := range cc.Args {
 			t := fr.argTerm(a)
@@ -768,8 +770,25 @@ func (fr *Frame) atCallAsserts(key string, cc *ssa.CallCommon, st *State, pos to
 }
 
 func calleeMatches(pat, key string, cc *ssa.CallCommon) bool {
-	if key == pat || strings.HasSuffix(key, "."+pat) {
+	if key == pat || strings.HasSuffix(key, "."+pat) || strings.HasSuffix(key, "/"+pat) {
 		return true
+	}
+	// "recv.method" on a statically dispatched method: h.handleSetCommon, h.rw.Write ($arg0 is the receiver)
+	if f, ok := cc.Value.(*ssa.Function); ok && !cc.IsInvoke() && f.Signature.Recv() != nil {
+		if i := strings.LastIndex(pat, "."); i >= 0 && pat[i+1:] == f.Name() && !strings.Contains(pat[:i], "/") {
+			return true
+		}
+	}
+	// "local.Method" on an interface-typed local: lock.Lock
+	if cc.IsInvoke() && strings.Count(pat, ".") == 1 {
+		if i := strings.Index(pat, "."); pat[i+1:] == cc.Method.Name() {
+			if u, ok := cc.Value.(*ssa.UnOp); ok {
+				if _, isField := u.X.(*ssa.FieldAddr); isField {
+					return false
+				}
+			}
+			return true
+		}
 	}
 	// "recv.Method" form: l.wrapped.Set -> matches invoke of method Set on a value loaded from field wrapped
 	if cc.IsInvoke() {
@@ -1301,6 +1320,7 @@ func (fr *Frame) atSendAsserts(ins *ssa.Send, v Term, st *State) {
 		if at.Ord >= 0 && at.Ord != fr.sendOrdinal(ins, name) {
 			continue
 		}
+		vc.atMatched[at] = true
 		ctx := fr.specCtx(st, fr.entry, fr.curBlock, fr.curIdx)
 		v.T = ins.X.Type()
 		ctx.env["$val"] = v
